@@ -74,7 +74,9 @@ impl Roundable for i128 {
     }
 
     fn compare_remainder(dividend: Self, divisor: Self) -> Option<Ordering> {
-        Some((dividend.abs() % divisor).cmp(&(divisor / 2)))
+        // Compare d1 = x - r1 with d2 = r2 - x exactly (also for odd divisors).
+        let remainder = dividend.abs() % divisor;
+        Some(remainder.cmp(&(divisor - remainder)))
     }
 
     fn is_even_cardinal(dividend: Self, divisor: Self) -> bool {
